@@ -16,7 +16,7 @@ _STR_CONST = _re.compile(r"^Ty\(&'\{erased\} str, \"(.*)\"\)$")
 
 
 class Slicer:
-    def __init__(self, body, max_depth=60):
+    def __init__(self, body, max_depth=250):
         self.b = body
         self.max_depth = max_depth
         self._rd = {}
@@ -343,7 +343,7 @@ class PathSlicer(Slicer):
     """Reaching definitions restricted to one acyclic block path (path-sensitive
     terms for table extraction)."""
 
-    def __init__(self, body, path, max_depth=60):
+    def __init__(self, body, path, max_depth=250):
         super().__init__(body, max_depth)
         self.path = [p for p in path if not isinstance(p, tuple)]
         self.pos = {bb: i for i, bb in enumerate(self.path)}
